@@ -196,6 +196,34 @@ def run(rep):
         n = rng.randint(1, 4)
         nd = rng.randint(1, 2)
         hists.append((n, nd, gen_history(rng, n, nd, rng.randint(3, 14))))
+    # structured: the directory is filled completely in a random order (by index, key, negative index), possibly by a
+    # process that is killed afterwards and reopened, then read by one full pass (plain or keyed) in flight
+    for _ in range(max(6, nh // 8)):
+        n = rng.randint(2, 5)
+        ops = [{'k': 'open', 'dir': 0, 'reuse': True, 'clear': False}]
+        order = list(range(n))
+        rng.shuffle(order)
+        for i in order:
+            op = {'k': 'get', 'w': 0, 'i': i}
+            u = rng.random()
+            if u < 0.3:
+                op['by_key'] = True
+            elif u < 0.5:
+                op['how'] = 'neg'
+            ops.append(op)
+        w = 0
+        if rng.random() < 0.5:
+            ops += [{'k': 'kill'}, {'k': 'open', 'dir': 0, 'reuse': True, 'clear': False}]
+            w = 1
+        elif rng.random() < 0.5:
+            ops.append({'k': 'copy', 'w': 0})
+        keyed_pass = rng.random() < 0.5
+        for pos in range(n):
+            op = {'k': 'next', 'w': w, 'it': 0, 'i': pos}
+            if keyed_pass:
+                op['items'] = True
+            ops.append(op)
+        hists.append((n, 1, ops))
     with ThreadPoolExecutor(max_workers=12) as ex:
         results = list(ex.map(lambda h: run_history(*h), hists))
     replies = model.ask([model_request(*h) for h in hists])
